@@ -152,12 +152,17 @@ def run_mapper(sid, metric, knobs=(), arch=None, wl=None, use_cache=True, eval_i
         for i in range(len(r.data)):
             row = r.data.iloc[i]
             ru = r[i].resource_usage()
+            nodes = None
             try:
-                tree = afx.tree_str(afx.mapping_to_tree(row["Total<SEP>mapping"](_for_model=True))) \
-                    if callable(row.get("Total<SEP>mapping")) else None
+                if callable(row.get("Total<SEP>mapping")):
+                    nodes = afx.mapping_to_tree(row["Total<SEP>mapping"](_for_model=True))
+                    tree = afx.tree_str(nodes)
+                else:
+                    tree = None
             except Exception as e:  # pragma: no cover
                 tree = f"<{type(e).__name__}>"
             res["rows"].append({
+                "nodes": nodes,
                 "energy": float(row["Total<SEP>energy"]), "latency": float(row["Total<SEP>latency"]),
                 "edp": float(row["Total<SEP>energy_delay_product"]) if "Total<SEP>energy_delay_product" in row else None,
                 "usage": {m: float(ru.get(m, 0.0)) for m in mems}, "tree": tree})
